@@ -21,6 +21,7 @@ def run(model, rep, tier):
     r1_map_access_total(ctx, rep)
     r2_stated_invariants(ctx, rep)
     r3_default_mode(ctx, rep)
+    r4_low_link_discipline(ctx, rep)
     rep.units['cfg'] = ctx.cfg_stats
 
 
@@ -212,3 +213,426 @@ def r3_default_mode(ctx, rep, R='C20.R3'):
     okd = len(d0) == 1 and isinstance(d0[0], ast.Constant) and d0[0].value is False
     rep.check(okd, R, 'trivial defaults to False', 'the default mode changed', key='default-arg',
               func=fi.qualname, where=ctx.where(fi, fi.node))
+
+
+# ---------------------------------------------------------------------------------------------
+# R4 -- low-link discipline (necessary conditions of Tarjan's algorithm, decided by a must-alias
+# data-flow analysis over the CFG of sccs())
+
+def _roles(fi):
+    """names of the state map S and of the ancestor list A, the state class name"""
+    S = A = C = None
+    for n in ast.walk(fi.node):
+        if isinstance(n, ast.Assign):
+            for t in n.targets:
+                if isinstance(t, ast.Subscript) and isinstance(t.value, ast.Name) and \
+                        isinstance(n.value, ast.Call) and isinstance(n.value.func, ast.Name) and \
+                        isinstance(t.slice, ast.Name):
+                    S, C = t.value.id, n.value.func.id
+    if S is None:
+        return None
+    for n in ast.walk(fi.node):
+        if isinstance(n, ast.Subscript) and is_name(n.value, S) and isinstance(n.slice, ast.Subscript) \
+                and isinstance(n.slice.value, ast.Name) and norm(n.slice.slice) == '-1':
+            A = n.slice.value.id
+    return (S, A, C) if A else None
+
+
+def _is_par_expr(e, S, A):
+    return isinstance(e, ast.Subscript) and is_name(e.value, S) and isinstance(e.slice, ast.Subscript) \
+        and is_name(e.slice.value, A) and norm(e.slice.slice) == '-1'
+
+
+def _state_key(e, S):
+    """X for the expressions S[X] and S.get(X)"""
+    if isinstance(e, ast.Subscript) and is_name(e.value, S) and isinstance(e.slice, ast.Name):
+        return e.slice.id
+    if isinstance(e, ast.Call) and isinstance(e.func, ast.Attribute) and e.func.attr == 'get' and \
+            is_name(e.func.value, S) and len(e.args) == 1 and isinstance(e.args[0], ast.Name):
+        return e.args[0].id
+    return None
+
+
+def _transfer_factory(S, A):
+    from sa.cfg import walk_no_defs
+
+    def kill_names(facts, names):
+        return frozenset(f for f in facts if not (set(f[1:]) & names))
+
+    def transfer(node, facts, kind):
+        a = node.ast
+        if a is None:
+            return facts
+        if node.kind == 'for':
+            if kind != 'true':
+                return facts
+            names = {x.id for x in ast.walk(node.stmt.target) if isinstance(x, ast.Name)}
+            return kill_names(facts, names)
+        if node.kind != 'stmt':
+            return facts
+        calls = [c for c in walk_no_defs(a) if isinstance(c, ast.Call) and
+                 isinstance(c.func, ast.Attribute) and is_name(c.func.value, A)]
+        stored = {x.id for x in walk_no_defs(a) if isinstance(x, ast.Name) and
+                  isinstance(x.ctx, (ast.Store, ast.Del))}
+        out = kill_names(facts, stored)
+        popped_into = None
+        for c in calls:
+            if c.func.attr == 'pop':
+                out = frozenset(f for f in out if f[0] not in ('par', 'popped', 'top'))
+                par = getattr(c, '_parent', None)
+                if isinstance(a, ast.Assign) and a.value is c and len(a.targets) == 1 and \
+                        isinstance(a.targets[0], ast.Name) and not c.args:
+                    popped_into = a.targets[0].id
+            elif c.func.attr == 'append' and len(c.args) == 1 and isinstance(c.args[0], ast.Name):
+                x = c.args[0].id
+                new = {f for f in out if f[0] not in ('par', 'popped', 'top')}
+                new |= {('par', f[1]) for f in out if f[0] == 'st' and f[2] == x}
+                out = frozenset(new)
+            else:
+                out = frozenset(f for f in out if f[0] not in ('par', 'popped', 'top'))
+        if any(isinstance(x, ast.Subscript) and is_name(x.value, A) and
+               isinstance(x.ctx, (ast.Store, ast.Del)) for x in walk_no_defs(a)) or A in stored:
+            out = frozenset(f for f in out if f[0] not in ('par', 'popped', 'top'))
+        if popped_into:
+            out = out | {('popped', popped_into)}
+        if isinstance(a, ast.Assign):
+            names = [t.id for t in a.targets if isinstance(t, ast.Name)]
+            keys = [_state_key(t, S) for t in a.targets if isinstance(t, ast.Subscript)]
+            keys = [k for k in keys if k]
+            # S[X] = <new object>: older aliases of S[X] are stale
+            for k in keys:
+                out = frozenset(f for f in out if not (f[0] == 'st' and f[2] == k))
+            gen = set()
+            if keys:
+                for v in names:
+                    gen.add(('st', v, keys[0]))
+            k = _state_key(a.value, S)
+            if k and k not in stored:
+                for v in names:
+                    gen.add(('st', v, k))
+            if _is_par_expr(a.value, S, A):
+                for v in names:
+                    gen.add(('par', v))
+            if isinstance(a.value, ast.Subscript) and is_name(a.value.value, A) and \
+                    norm(a.value.slice) == '-1':
+                for v in names:
+                    gen.add(('top', v))
+            if k and ('top', k) in facts and k not in stored:
+                for v in names:
+                    gen.add(('par', v))
+            if isinstance(a.value, ast.Attribute) and isinstance(a.value.value, ast.Name) and \
+                    a.value.attr in ('low', 'dfs'):
+                for f in facts:
+                    if f[0] == 'st' and f[1] == a.value.value.id and f[2] not in stored:
+                        for v in names:
+                            gen.add(('v' + a.value.attr, v, f[2]))
+            if isinstance(a.value, ast.Name):          # plain copy of an alias
+                for f in facts:
+                    if f[1] == a.value.id and f[0] in ('st', 'par', 'top', 'vlow', 'vdfs') and \
+                            not (set(f[2:]) & stored):
+                        for v in names:
+                            gen.add((f[0], v) + f[2:])
+            out = out | gen
+        return out
+    return transfer
+
+
+def r4_low_link_discipline(ctx, rep, R='C20.R4'):
+    rep.rule(R, 'low-link discipline of the Tarjan walk (necessary conditions, decided by must-alias '
+             'data flow over all paths of sccs()): a node\'s dfs number is never changed and low '
+             'starts equal to it; every store to a low-link is a min-update of the state of the '
+             'CURRENT parent (top of the ancestor list at that moment) with either the low-link of '
+             'the child just returned from, or the dfs/low of an already visited neighbour that is '
+             'still on the stack; the first kind is passed on every return to a parent unless the '
+             'child was a component root, the second on every stacked neighbour; the component is '
+             'popped off the stack down to exactly the root that was returned from')
+    from sa.dataflow import must_forward
+    from sa.srcmodel import AnalysisError
+    fi = ctx.model.func(FN)
+    g = ctx.cfg(fi)
+    roles = _roles(fi)
+    if roles is None:
+        rep.undecide(R, 'roles', 'cannot identify the state map / ancestor list of sccs() (no '
+                     'state[ancestors[-1]] expression): not the iterative Tarjan shape this rule reads')
+        return
+    S, A, C = roles
+    IN = must_forward(g, _transfer_factory(S, A))
+    where = ctx.where(fi, fi.node)
+
+    def facts(nid):
+        return IN.get(nid) or frozenset()
+
+    # (a) dfs immutable, low initialised with it, counter monotone
+    cls = None
+    for ci in ctx.model.all_classes():
+        if ci.name == C and ci.module is fi.module:
+            cls = ci
+    init = cls.methods.get('__init__') if cls is not None else None
+    ok_init, why = False, 'state class %s not found' % C
+    if init is not None:
+        vals = {}
+        for n in ast.walk(init.node):
+            if isinstance(n, ast.Assign):
+                for t in n.targets:
+                    if isinstance(t, ast.Attribute) and is_name(t.value, 'self') and t.attr in ('low', 'dfs'):
+                        vals[t.attr] = n.value
+        ok_init = set(vals) == {'low', 'dfs'} and (vals['low'] is vals['dfs'] or
+                                                  norm(vals['low']) in ('self.dfs',) or
+                                                  norm(vals['dfs']) in ('self.low',))
+        if ok_init:
+            src = vals['dfs'] if norm(vals['dfs']) != 'self.low' else vals['low']
+            ok_init = isinstance(src, ast.Call) and is_name(src.func, 'next') and len(src.args) == 1
+        why = 'low/dfs initialised from %s' % {k: norm(v) for k, v in vals.items()}
+    rep.check(ok_init, R, '%s.__init__: dfs = low = next(<counter>)' % C,
+              'a new node does not start with low == dfs == the next visit number (%s)' % why,
+              key='init', func=fi.qualname, where=where)
+    cnt = [n for n in ast.walk(fi.node) if isinstance(n, ast.Call) and is_name(n.func, C) and n.args]
+    okc = bool(cnt)
+    for c in cnt:
+        a0 = c.args[0]
+        defs = [n.value for n in ast.walk(fi.node) if isinstance(n, ast.Assign) and
+                any(is_name(t, getattr(a0, 'id', None)) for t in n.targets)]
+        okc = okc and len(defs) == 1 and isinstance(defs[0], ast.Call) and \
+            (dotted(defs[0].func) or '').split('.')[-1] == 'count' and not defs[0].keywords and \
+            len(defs[0].args) <= 1
+    rep.check(okc, R, 'visit numbers come from one itertools.count()', 'the dfs numbers are not drawn '
+              'from a single increasing counter', key='counter', func=fi.qualname, where=where)
+    dfs_stores = [n for n in ast.walk(fi.node) if isinstance(n, ast.Attribute) and n.attr == 'dfs'
+                  and isinstance(n.ctx, (ast.Store, ast.Del))]
+    rep.check(not dfs_stores, R, 'no store to .dfs in sccs()', 'the dfs number of a node is changed '
+              'after its first visit', key='dfs-immutable', func=fi.qualname,
+              where=ctx.where(fi, dfs_stores[0]) if dfs_stores else where)
+
+    # (b)/(c) classification of every low-link store
+    H = None
+    stores = []
+    for n in g.nodes:
+        if n.kind == 'stmt' and isinstance(n.ast, (ast.Assign, ast.AugAssign)):
+            tg = n.ast.targets if isinstance(n.ast, ast.Assign) else [n.ast.target]
+            for t in tg:
+                if isinstance(t, ast.Attribute) and t.attr == 'low' and isinstance(t.value, ast.Name):
+                    stores.append((n, t))
+    rep.floor(R, len(stores), 2, 'low-link stores in sccs()')
+    kindA, kindB = [], []
+
+    def value_of(e, V, f):
+        """(kind 'low'|'dfs', X) of the value expression, or None"""
+        if isinstance(e, ast.Call) and is_name(e.func, 'min') and len(e.args) == 2:
+            rest = [x for x in e.args if norm(x) != '%s.low' % V]
+            if len(rest) == 1:
+                r = value_of(rest[0], V, f)
+                return (r[0], r[1], True) if r else None
+            return None
+        if isinstance(e, ast.Name):
+            for k in ('vlow', 'vdfs'):
+                xs = [x[2] for x in f if x[0] == k and x[1] == e.id]
+                if xs:
+                    return (k[1:], xs[0], False)
+        if isinstance(e, ast.Attribute) and isinstance(e.value, ast.Name) and e.attr in ('low', 'dfs'):
+            xs = [x[2] for x in f if x[0] == 'st' and x[1] == e.value.id]
+            if xs:
+                return (e.attr, xs[0], False)
+        return None
+
+    def guard_node(n, e, V):
+        """the test node that makes the store a min-update (value < V.low), or None"""
+        for lit, pos in g.dominating_literals(n.id):
+            if isinstance(lit, ast.Compare) and len(lit.ops) == 1:
+                l, r, op = norm(lit.left), norm(lit.comparators[0]), lit.ops[0]
+                lt = (l == norm(e) and r == '%s.low' % V and
+                      ((isinstance(op, ast.Lt) and pos) or (isinstance(op, ast.GtE) and not pos))) or \
+                     (r == norm(e) and l == '%s.low' % V and
+                      ((isinstance(op, ast.Gt) and pos) or (isinstance(op, ast.LtE) and not pos)))
+                if lt:
+                    from sa.variance import split_literals
+                    for t in g.nodes:
+                        if t.kind == 'test' and any(x is lit for x in ast.walk(t.ast)):
+                            others = [x for x, p in split_literals(t.ast, True) if x is not lit and
+                                      not (p and is_name(x, A))]
+                            return t.id if not others else n.id
+                    return n.id
+        return None
+
+    for n, t in stores:
+        V = t.value.id
+        f = facts(n.id)
+        w = ctx.where(fi, n.ast)
+        if isinstance(n.ast, ast.AugAssign):
+            rep.bad(R, norm(n.ast), 'a low-link is changed by an augmented assignment, not a min-update',
+                    key='low-store:' + norm(n.ast), where=w, func=fi.qualname)
+            continue
+        if ('par', V) not in f:
+            rep.bad(R, norm(n.ast), 'on some path to this store %s is not the state of the current parent '
+                    '(%s[%s[-1]]): the low-link of another node -- e.g. of a child that was already '
+                    'finished -- is lowered instead of the parent\'s' % (V, S, A),
+                    key='low-store-target:' + norm(n.ast), where=w, func=fi.qualname)
+            continue
+        val = value_of(n.ast.value, V, f)
+        if val is None:
+            rep.bad(R, norm(n.ast), 'the stored value %s is not the low/dfs number of a node whose '
+                    'state is known on every path' % norm(n.ast.value),
+                    key='low-store-value:' + norm(n.ast), where=w, func=fi.qualname)
+            continue
+        vk, X, is_min = val
+        gn = n.id if is_min else guard_node(n, n.ast.value, V)
+        if gn is None:
+            rep.bad(R, norm(n.ast), 'the store is not a min-update (not guarded by %s < %s.low): a '
+                    'low-link could grow' % (norm(n.ast.value), V),
+                    key='low-store-min:' + norm(n.ast), where=w, func=fi.qualname)
+            continue
+        lits = g.dominating_literals(n.id)
+        stacked = any(pos and isinstance(e, ast.Attribute) and e.attr == 'stacked' and
+                      isinstance(e.value, ast.Name) and ('st', e.value.id, X) in f for e, pos in lits)
+        if ('popped', X) in f and vk == 'low':
+            kindA.append((n, gn))
+            rep.ok(R, '%s: parent.low = min(parent.low, low of the child returned from)' % norm(n.ast))
+        elif stacked and ('popped', X) not in f:
+            kindB.append((n, gn))
+            rep.ok(R, '%s: parent.low = min(parent.low, %s of a neighbour still on the stack)'
+                   % (norm(n.ast), vk))
+        else:
+            rep.bad(R, norm(n.ast), 'the update uses %s of node %s, which is neither the low-link of the '
+                    'child just returned from nor the number of a visited neighbour known to be on '
+                    'the stack (guard <state>.stacked missing)' % (vk, X),
+                    key='low-store-kind:' + norm(n.ast), where=w, func=fi.qualname)
+
+    # coverage of kind A: from every return to a parent
+    pops = [n for n in g.nodes if n.kind == 'stmt' and isinstance(n.ast, ast.Assign) and
+            isinstance(n.ast.value, ast.Call) and isinstance(n.ast.value.func, ast.Attribute) and
+            n.ast.value.func.attr == 'pop' and is_name(n.ast.value.func.value, A)]
+    rep.check(len(pops) == 1, R, 'one return-visit site (node = %s.pop())' % A,
+              'found %d sites popping the ancestor list' % len(pops), key='return-site',
+              func=fi.qualname, where=where)
+    if len(pops) == 1:
+        pn = pops[0]
+        X = pn.ast.targets[0].id if isinstance(pn.ast.targets[0], ast.Name) else None
+        loops = [p for p in _parents_of(pn.ast, fi.node) if isinstance(p, ast.While)]
+        heads = [t.id for t in g.nodes if t.kind == 'test' and loops and t.stmt is loops[0]]
+        roots, empties = [], []
+        for t in g.nodes:
+            if t.kind != 'test':
+                continue
+            e = t.ast
+            if isinstance(e, ast.Compare) and len(e.ops) == 1 and isinstance(e.ops[0], ast.Eq) and \
+                    isinstance(e.left, ast.Attribute) and isinstance(e.comparators[0], ast.Attribute) and \
+                    {e.left.attr, e.comparators[0].attr} == {'low', 'dfs'}:
+                ws = {norm(e.left.value), norm(e.comparators[0].value)}
+                okr = len(ws) == 1 and any(x[0] == 'st' and x[1] in ws and ('popped', x[2]) in facts(t.id)
+                                           for x in facts(t.id))
+                rep.check(okr, R, 'root test %s is made on the node returned from' % norm(e),
+                          'the component-root test %s is not made on the state of the node that was '
+                          'just returned from' % norm(e), key='root-test-node', func=fi.qualname,
+                          where=ctx.where(fi, t.stmt))
+                roots.append(t.id)
+            if is_name(e, A):
+                empties.append((t.id, 'false'))
+            if isinstance(e, ast.UnaryOp) and isinstance(e.op, ast.Not) and is_name(e.operand, A):
+                empties.append((t.id, 'true'))
+        rep.check(len(roots) == 1, R, 'one component-root test', 'found %d low == dfs tests' % len(roots),
+                  key='root-test', func=fi.qualname, where=where)
+        ga = {gn for _n, gn in kindA}
+
+        def edge_ok(s, d, k):
+            if k == 'exc':
+                return False
+            if s in roots and k == 'true':
+                return False
+            if (s, k) in empties:
+                return False
+            return True
+        r = g.reach([pn.id], avoid=ga, edge_ok=edge_ok)
+        okA = bool(kindA) and bool(heads) and not any(h in r for h in heads)
+        path = None
+        if kindA and heads and not okA:
+            for h in heads:
+                p = g.path([pn.id], h, avoid=ga, edge_ok=edge_ok)
+                if p:
+                    path = g.describe_path(p)
+        rep.check(okA, R, 'every return to a parent passes parent.low = min(parent.low, child.low) '
+                  'unless the child was a component root or no parent is left',
+                  'after returning from a child that is not a component root the walk can continue '
+                  'without handing the child\'s low-link to its parent: members of one component '
+                  'are reported separately', key='propagate-on-return', func=fi.qualname,
+                  where=ctx.where(fi, pn.ast), path=path)
+        # the component is popped down to exactly the root that was returned from: every way out
+        # of the loop that pops the stack is taken under "popped element is the root"
+        okp, whyp = False, 'no loop popping the stack found'
+        for hn in [t for t in g.nodes if t.kind == 'test' and isinstance(t.stmt, ast.While)]:
+            lp = hn.stmt
+            pp = [st for st in ast.walk(lp) if isinstance(st, ast.Assign) and isinstance(st.value, ast.Call)
+                  and isinstance(st.value.func, ast.Attribute) and st.value.func.attr == 'pop' and
+                  isinstance(st.value.func.value, ast.Name) and st.value.func.value.id != A and
+                  st.value.func.value.id != 'visits' and
+                  isinstance(st.targets[0], ast.Name) and not st.value.args]
+            inner = [w for w in ast.walk(lp) if isinstance(w, ast.While) and w is not lp]
+            if not pp or any(any(x is pp[0] for x in ast.walk(w)) for w in inner):
+                continue
+            v = pp[0].targets[0].id
+            members = g.loop_nodes(hn.id) | {hn.id}
+            exits = [(sn, d, k) for sn in members for d, k in g.succ[sn]
+                     if d not in members and k != 'exc']
+            if any(sn == hn.id for sn, d, k in exits):
+                okp, whyp = None, 'the popping loop can also end through its own condition (%s)' % norm(lp.test)
+                break
+            okp = bool(exits)
+            whyp = 'the popping loop has no exit' if not exits else ''
+            for sn, d, k in exits:
+                lits = [(e, pos) for e, pos in g.dominating_literals(sn)
+                        if isinstance(e, ast.Compare) and len(e.ops) == 1 and
+                        isinstance(e.ops[0], (ast.Is, ast.Eq, ast.IsNot, ast.NotEq)) and
+                        {norm(e.left), norm(e.comparators[0])} == {v, X}]
+                good = any((isinstance(e.ops[0], (ast.Is, ast.Eq)) and pos) or
+                           (isinstance(e.ops[0], (ast.IsNot, ast.NotEq)) and not pos) for e, pos in lits)
+                if k in ('true', 'false') and g.node(sn).kind == 'test':
+                    e = g.node(sn).ast
+                    if isinstance(e, ast.Compare) and len(e.ops) == 1 and \
+                            {norm(e.left), norm(e.comparators[0])} == {v, X}:
+                        good = (isinstance(e.ops[0], (ast.Is, ast.Eq)) and k == 'true') or \
+                            (isinstance(e.ops[0], (ast.IsNot, ast.NotEq)) and k == 'false')
+                if not (good and ('popped', X) in facts(sn)):
+                    okp = False
+                    whyp = 'the popping loop can be left at "%s" without the popped element being ' \
+                        'the root %s' % (g.node(sn).text(), X)
+            break
+        if okp is None:
+            rep.undecide(R, 'pop-loop', whyp)
+        else:
+            rep.check(okp, R, 'the component is popped down to exactly the root returned from',
+                      '%s: the component handed out can be cut short or run into an older component'
+                      % whyp, key='pop-until-root', func=fi.qualname, where=where)
+    # coverage of kind B: every stacked neighbour lowers the parent
+    stests = []
+    for t in g.nodes:
+        if t.kind == 'test':
+            for e in ast.walk(t.ast):
+                if isinstance(e, ast.Attribute) and e.attr == 'stacked' and isinstance(e.value, ast.Name) \
+                        and isinstance(e.ctx, ast.Load):
+                    f = facts(t.id)
+                    xs = [x[2] for x in f if x[0] == 'st' and x[1] == e.value.id]
+                    if xs and ('popped', xs[0]) not in f:
+                        stests.append(t)
+    gb = {gn for _n, gn in kindB}
+    okB = bool(kindB) and bool(stests)
+    for t in stests:
+        if not (isinstance(t.ast, ast.Attribute) or (isinstance(t.ast, ast.BoolOp) and
+                                                    isinstance(t.ast.op, ast.And))):
+            continue
+        starts = [d for d, k in g.succ[t.id] if k == 'true']
+        loops = [p for p in _parents_of(t.stmt, fi.node) if isinstance(p, ast.While)]
+        heads = [x.id for x in g.nodes if x.kind == 'test' and loops and x.stmt is loops[0]]
+        okp, _w = g.every_path_passes(starts, heads + [g.exit], gb, include_start=True,
+                                      edge_ok=lambda s, d, k: k != 'exc')
+        okB = okB and okp
+    rep.check(okB, R, 'an already visited neighbour that is still on the stack lowers the parent\'s '
+              'low-link (%d site(s))' % len(kindB),
+              'an edge to a node that is still on the stack (a back or cross edge inside the current '
+              'component) does not lower the parent\'s low-link on every path: cycles closed by such an '
+              'edge are not recognised', key='stacked-neighbour', func=fi.qualname, where=where)
+
+
+def _parents_of(node, stop):
+    out = []
+    while getattr(node, '_parent', None) is not None and node._parent is not stop:
+        node = node._parent
+        out.append(node)
+    return out
